@@ -38,7 +38,7 @@ FEATS = ["choice", "menu", "if", "menuconfig", "comment", "if_in_choice", "selec
 def generate(r, tier):
     big = tier == "thorough"
     feats = [f for f in FEATS if f in ("menu", "menuconfig", "choice") or r.random() < 0.7]
-    prog = kgen.gen_program(r, lo=4, hi=18 if big else 12, feats=feats)
+    prog = kgen.gen_menu_program(r) if r.random() < 0.3 else kgen.gen_program(r, lo=4, hi=18 if big else 12, feats=feats)
     sc = {"prog": prog, "parser": kgen.pick_parser(r, prog, 0.04), "hash_salt": r.getrandbits(32), "policy": r.choice([None, None, "kconfig"])}
     sc["renames"] = kgen.rename_table(r, prog)[0] if r.random() < 0.2 else None
     sc["hand"] = [kgen.handwritten(r, prog, sane=r.random() < 0.6) for _ in range(r.randint(0, 2))]
@@ -46,7 +46,7 @@ def generate(r, tier):
                        for _ in range(r.randint(0, 2))]
     sc["initial"] = r.choice(["absent", "tool-same", "tool-same", "hand"])
     sc["actions"] = uimachine.gen_actions(r, prog, r.randint(5, 60 if big else 40), hand_n=len(sc["hand"]), tool_n=len(sc["tool_hist"]),
-                                          weights={"q": 2, "s": 3})
+                                          weights={"q": 2, "s": 3, "macro": 10})
     return sc
 
 
